@@ -848,7 +848,13 @@ func (g *Gen) evalCall(x *ECall, env *Env) Val {
 		case v.K == kScalar:
 			if mt, ok := v.T.Underlying().(*types.Map); ok {
 				_, ln, _, _ := g.mapHeaps(env, mt)
-				return sv(intT, ite(eq(v.S, "0"), g.idxConst(0), sel(ln, v.S)))
+				t := ite(eq(v.S, "0"), g.idxConst(0), sel(ln, v.S))
+				if g.inQuant == 0 && env.symHeap == nil {
+					// type fact (a map's length is never negative), as for len(m) in code: needed when the
+					// code itself never takes this length
+					g.assume("true", g.idxLe(g.idxConst(0), t))
+				}
+				return sv(intT, t)
 			}
 			if at, ok := v.T.Underlying().(*types.Array); ok {
 				return sv(intT, g.idxConst(at.Len()))
